@@ -18,7 +18,12 @@ MANIFEST = {
          "boundary and no write past size; uv_ip6_addr(a%z) == uv_inet_pton(a) for every a; uv__strscpy never writes past n, NUL-terminates, returns UV_E2BIG iff truncated.  The model is tied to the working "
          "tree by running model, implementation and glibc on the same strings/addresses/sizes (exhaustive short strings over the full "
          "byte alphabet, grammar-generated and mutated forms, all 256 zero-word patterns, every destination size 0..len+2) with all "
-         "buffers against guard pages.",
+         "buffers against guard pages.  Text half (UvModel.Props.C18Text): uv__utf8_decode1 accepts exactly the Unicode Table 3-7 "
+         "well-formed sequences with the right value and length (truncated and ill-formed input rejected); uv__idna_toascii never writes "
+         "past the destination, NUL-terminates inside it, copies ASCII labels unchanged, prefixes xn-- exactly for labels with non-ASCII "
+         "code points, rejects ill-formed UTF-8; the UTF-16/WTF-8 converters round-trip every code-unit list (unpaired surrogates "
+         "included) and their length functions are exact; validated against the implementation on exhaustive short byte strings, "
+         "class-representative grids, host names with every destination size, and against Python's punycode codec (validation, not proof).",
  "note": "Trusted: Lean kernel (axioms propext, Classical.choice, Quot.sound); the byte-list abstraction of C strings/buffers "
          "(validated line by line against the implementation); glibc inet_pton/inet_ntop as second implementation of the grammar; "
          "snprintf %u/%x modelled for unsigned char / 16-bit arguments only; if_nametoindex (sin6_scope_id) is an OS answer checked "
@@ -448,7 +453,7 @@ def run(ctx):
     ctx.assumptions += ["snprintf %u / %x print canonical decimal / lower-case hex for arguments < 256 / < 65536",
                         "sizes passed to uv__strscpy are <= SSIZE_MAX+1",
                         "sin6_scope_id = if_nametoindex(zone) is an OS answer (monitor only)"]
-    proofs_ok = ctx.require_lean(["UvModel.Props.C18Inet"])
+    proofs_ok = ctx.require_lean(["UvModel.Props.C18Inet", "UvModel.Props.C18Text"])
     exe = ctx.harness("c18_inet", ["harness/c18_inet.c"], link_lib=True)
     if exe is not None:
         run_inet(ctx, exe, proofs_ok)
